@@ -39,7 +39,7 @@ def main():
         })
     man = {
         "version": 1,
-        "setup_cmd": f"cd /verif && {PY} -m compileall -q mc && {PY} -m mc.build plain asan",
+        "setup_cmd": f"cd /verif && {PY} -m compileall -q mc && {PY} -m mc.build plain asan tsan",
         "hooks": {
             "guard": "TSKIT_VERIF",
             "enable": "checks build _tskit out of tree from /repo's working tree into /verif/build and run with TSKIT_VERIF=1",
